@@ -54,6 +54,12 @@ pub struct EnvState {
     pub cert_file: [u8; 24],
     pub cert_file_len: usize,
     pub cert_unreadable: bool,
+    // ---- account request models (cuts of acme_proto::account::*)
+    pub ca_key_kid: u32,
+    pub acc_ev: [u8; 4],
+    pub acc_ev_key_ok: [bool; 4],
+    pub acc_ev_n: usize,
+    pub acc_failed: bool,
 }
 pub static mut ENV: EnvState = EnvState {
     magic: 0x5EED_C0DE_ACED_0001,
@@ -68,6 +74,11 @@ pub static mut ENV: EnvState = EnvState {
     cert_file: [0; 24],
     cert_file_len: 0,
     cert_unreadable: false,
+    ca_key_kid: 0,
+    acc_ev: [0; 4],
+    acc_ev_key_ok: [false; 4],
+    acc_ev_n: 0,
+    acc_failed: false,
 };
 pub fn env() -> &'static mut EnvState {
     unsafe { &mut *core::ptr::addr_of_mut!(ENV) }
